@@ -12,6 +12,8 @@ impl AccountInfo {
     pub open spec fn dflt() -> AccountInfo { AccountInfo { balance: U256(0, 0), nonce: 0, code_hash: KECCAK_EMPTY, code: Some(Bytecode(0)) } }
     pub fn is_empty_code_hash(&self) -> (b: bool) ensures b == (self.code_hash == KECCAK_EMPTY) { self.code_hash == KECCAK_EMPTY }
     pub fn clone(&self) -> (r: Self) ensures r == *self { *self }
+    /// revm: the same account without its inline bytecode
+    pub fn copy_without_code(&self) -> (r: Self) ensures r == (AccountInfo { balance: self.balance, nonce: self.nonce, code_hash: self.code_hash, code: None }) { AccountInfo { balance: self.balance, nonce: self.nonce, code_hash: self.code_hash, code: None } }
     /// revm: no balance, no nonce, no code (uninterpreted here)
     pub uninterp spec fn empty_spec(&self) -> bool;
     #[verifier::external_body] pub fn is_empty(&self) -> (b: bool) ensures b == self.empty_spec() { unimplemented!() }
